@@ -68,7 +68,28 @@ def install(need_glue=True):
     if need_glue:
         for cls, stream in hashed_classes():
             cls.__hash__ = _make_hash(stream)
+        _guard_fast_histogram()
     _STATE['installed'] = True
+
+
+def _guard_fast_histogram():
+    """fast_histogram.histogram1d (third party, C) dereferences out of bounds and kills the interpreter when the range
+    is narrower than the smallest normal double - which glue's histogram viewer requests for a dataset whose values are all
+    0 (range (0, 5e-323)).  Not one of the properties; the harness answers such calls with an empty histogram so that the
+    worker survives.  Every other call goes to the real function."""
+    import numpy as np
+    import glue.core.data as D
+    real = D.histogram1d
+    if getattr(real, '_verif_guard', False):
+        return
+
+    def histogram1d(x, bins, range, weights=None):
+        lo, hi = float(range[0]), float(range[1])
+        if not (hi - lo) > 1e-300:
+            return np.zeros(int(bins))
+        return real(x, bins=bins, range=range, weights=weights)
+    histogram1d._verif_guard = True
+    D.histogram1d = histogram1d
 
 
 def begin_run(env_seed):
